@@ -44,6 +44,8 @@ def check(c: Check):
     clause_f(c)
     clause_g(c)
     clause_h(c)
+    from .common import sweep_records
+    sweep_records(c, 'C15-rec', ['exactly_lib.impls.file_properties', 'exactly_lib.impls.types.files_matcher', 'exactly_lib.impls.types.file_matcher', 'exactly_lib.impls.types.files_source'], floor=3)
 
 
 class _NoInline(Hooks):
